@@ -5,10 +5,10 @@ import json, re
 import pvlib
 from pvlib import Check, run_tlc, run_cases, payloads
 
-PRELUDE = 'M1 := %{1: 100, "a": 101, [1]: 102, "c": 103}; M2 := %{[1]: 200, 2: 201, {a: 1}: 202}; O1 := {a: 110, c: 111}; O2 := {b: 120, _p: 121, _q: 122}\n'
+PRELUDE = 'M1 := %{1: 100, "a": 101, [1]: 102, "c": 103}; M2 := %{[1]: 200, 2: 201, {a: 1}: 202}; O1 := {a: 110, c: 111, a!: 112}; O2 := {b: 120, _p: 121, _q: 122}\n'
 # the operands themselves must be what they were (what they print, contain and index), whatever literal was evaluated
 OPERANDS = "say([M1, M2, O1, O2, M1.S, M2.S, O1.S, O2.S, M1.keys, M2.keys, O1.keys, O2.keys, O1['b], O1['_p], O1['d], O2['a], O2['c], M1[2], M2[1], M1[{a: 1}]])"
-INSPECT = {"1.0": "1.000000"}
+INSPECT = {"1.0": "1.000000", "1.0000001": "1.000000", "1.0000002": "1.000000"}
 
 
 def v(x):
@@ -109,7 +109,7 @@ def run():
                           {"src": reqs[i]["src"], "observed": operands, "expected": ref_operands})
             elif ev and again != ev[-2]:
                 ck.reject(f"C09:{c['kind']}:second-evaluation-differs", f"{lit} evaluated twice gives {ev[-2]} then {again}", {"src": reqs[i]["src"]})
-        dup = len(c["pairs"]) + sum({"M1": 4, "M2": 3, "O1": 2, "O2": 3}[s] for s in c["spreads"]) > len(c["all"])
+        dup = len(c["pairs"]) + sum({"M1": 4, "M2": 3, "O1": 3, "O2": 3}[s] for s in c["spreads"]) > len(c["all"])
         nontrivial += 1 if dup else 0
         if len(ev) != len(exp):
             ck.reject(f"C09:{c['kind']}:aborted", f"{lit}: program ended with {o['end']} after {len(ev)} accessors", {"src": reqs[i]["src"], "observed": o["end"], "events": ev})
@@ -138,8 +138,8 @@ def run():
     ck.cov["distinct_nontrivial"] = nontrivial
     ck.cov["traces_validated_against_impl"] = len(cases)
     ck.cov["exhaustive"] = True
-    ck.cov["rule"] = ("object literals: every sequence of <= MaxPairs pairs over names {a, b, _p} x ** operands {-, O1, O2, O1 O2, O2 O1}; map literals: every sequence "
-                      "of <= MaxPairs pairs over 12 keys (ints, strs, float, nil, bools, arrays incl. [1] twice-equal, object) x ** operands {-, M1, O1, M1 O1, O2 M1}; "
+    ck.cov["rule"] = ("object literals: every sequence of <= MaxPairs pairs over names {a, b, _p, a!, _p!} x ** operands {-, O1, O2, O1 O2, O2 O1}; map literals: every sequence "
+                      "of <= MaxPairs pairs over 14 keys (ints, strs, floats incl. two that print alike, nil, bools, arrays incl. [1] twice-equal, object) x ** operands {-, M1, O1, M1 O1, O2 M1}; "
                       "MaxPairs 2 quick / 3 thorough; accessors keys/values/items(/private), iteration, len, index for every pool key, structure, printed pairs; "
                       "non-trivial = literals with at least one duplicate key")
     ck.assumptions = ["names that are also Map/Obj property names are not used as absent-key probes"]
